@@ -9,9 +9,11 @@ import (
 )
 
 // !certBuilder <steps>: a sequence of builder calls, then Build(). steps = comma-separated
-//   t<type>        WithType
-//   p<hex>         WithPayload
-//   k<sig>:<cry>   WithKeyTypes
+//
+//	t<type>        WithType
+//	p<hex>         WithPayload
+//	k<sig>:<cry>   WithKeyTypes
+//
 // C19 oracle: the builder must accept exactly what the direct constructor accepts for the configuration
 // the calls describe, and produce the same serialisation. The configuration is the builder's documented one:
 // the certificate type last set (WithKeyTypes sets KEY), and — whichever was called last — the explicit
